@@ -371,6 +371,7 @@ pub fn run(opts: &Opts) -> Report {
         "C01",
         "(a) real-concurrency stress: 2-6 OS threads x 8-40 operations (all public append kinds, branch, handoff, auto compaction jobs, scheduler, cursor rotation, linked session runs with tool envelopes) on shared and own threads, optionally across an authority restart; the whole log must replay validated and every stream be numbered 0,1,2,… in file order; (b) controlled schedules: 2-3 writers with programs over {append shared, create (branch), append own child} single-stepped between the effects of the real append/branch functions; final log (stream, seq) sequence compared with the Lean LTS run on the same schedule; the branch-race witness is replayed on the real store; non-trivial = >=2 writers each with >=2 effects interleaved, distinct by (programs, schedule)",
     );
+    let t_start = std::time::Instant::now();
     let mut model = Model::spawn();
     let mut rng = Rng::new(opts.seed);
     let n_stress = if opts.thorough { 40 } else { 6 } * opts.scale;
@@ -379,10 +380,12 @@ pub fn run(opts: &Opts) -> Report {
         let nops = rng.range(8, 40) as usize;
         stress_case(&mut rep, &mut rng, nt, nops, k % 3 == 2);
     }
+    eprintln!("c01: stress done at {:?}", t_start.elapsed());
     let n_cold = if opts.thorough { 800 } else { 80 } * opts.scale;
     for _ in 0..n_cold {
         cold_race_case(&mut rep, &mut rng);
     }
+    eprintln!("c01: cold race done at {:?}", t_start.elapsed());
     // corpus: the branch race of Rip.Cex.C01.branch_race
     let mut cases: Vec<(Vec<Vec<Op>>, Vec<usize>)> = vec![(vec![vec![Op::Create], vec![Op::AppendForeign(0, 0)]], vec![0, 0, 0, 0, 1, 1, 1, 1, 1, 1, 0, 0, 0])];
     let n_sched = if opts.thorough { 600 } else { 60 } * opts.scale;
